@@ -15,6 +15,7 @@ import (
 	"sort"
 	"strconv"
 	"strings"
+	"sync"
 	"testing/synctest"
 	"time"
 
@@ -88,7 +89,7 @@ func errOfTok(t string) error {
 
 type Item struct {
 	K    int
-	Kind string // call run wake fcancel cancel gcpass tick shutdown
+	Kind string // call run wake fcancel cancel gcpass gcstart gcrun resume tick shutdown
 	Tid  int
 	Op   string // try lock unl
 	Name string
@@ -102,8 +103,12 @@ type Item struct {
 type Schedule struct {
 	ID      string
 	MinIdle int
+	Shards  int
 	Items   []Item
 }
+
+// first thread id of the GC passes started by "gcstart" items (pass n runs as thread GcTid0+n)
+const GcTid0 = 90
 
 func (it Item) forced() bool { return it.Kind == "wake" || it.Kind == "fcancel" }
 
@@ -119,12 +124,18 @@ func ParseSchedules(sc *bufio.Scanner) []*Schedule {
 		switch f[0] {
 		case "S":
 			if len(f) >= 2 {
-				cur = &Schedule{ID: f[1]}
+				cur = &Schedule{ID: f[1], Shards: 1}
 				out = append(out, cur)
 			}
 		case "C":
 			if cur != nil && len(f) >= 2 {
 				cur.MinIdle, _ = strconv.Atoi(f[1])
+			}
+		case "H":
+			if cur != nil && len(f) >= 2 {
+				if n, err := strconv.Atoi(f[1]); err == nil && n >= 1 && n <= 4096 {
+					cur.Shards = n
+				}
 			}
 		case "I":
 			if cur == nil || len(f) < 3 {
@@ -143,7 +154,7 @@ func ParseSchedules(sc *bufio.Scanner) []*Schedule {
 				it.Key = unhx(f[6])
 				z, _ := strconv.Atoi(f[7])
 				it.Size = int32(z)
-			case "run", "wake", "fcancel":
+			case "run", "wake", "fcancel", "resume":
 				if len(f) < 4 {
 					continue
 				}
@@ -159,7 +170,7 @@ func ParseSchedules(sc *bufio.Scanner) []*Schedule {
 					continue
 				}
 				it.Dt, _ = strconv.Atoi(f[3])
-			case "gcpass", "shutdown":
+			case "gcpass", "shutdown", "gcstart", "gcrun":
 			default:
 				continue
 			}
@@ -202,6 +213,29 @@ type runner struct {
 	nprobe   int
 	Reached  map[string]int
 	hangInfo string
+	exhibit  bool  // window yield points (W labels) and shape sentinels (X labels) park
+	gcs      []int // thread ids of the GC passes started so far
+	pmu      sync.Mutex
+	passed   []passage // window yield points passed since the last report (comparison run)
+	epi      bool
+}
+
+// a registered thread went through a transparent window yield point
+type passage struct {
+	tid   int
+	label string
+}
+
+func isWindow(label string) bool   { return strings.HasPrefix(label, "W") }
+func isSentinel(label string) bool { return strings.HasPrefix(label, "X") }
+
+// asynchronous items: what the environment may do at any time (they never release a request goroutine)
+func (it Item) async() bool {
+	switch it.Kind {
+	case "cancel", "gcpass", "tick", "gcstart", "gcrun":
+		return true
+	}
+	return false
 }
 
 func (r *runner) beat(what string) {
@@ -261,6 +295,7 @@ func (r *runner) observe(k int) {
 		case vhook.Running:
 			fmt.Fprintf(r.w, "T %d B\n", in.ID)
 		case vhook.Finished:
+			// (a finished GC pass is not a thread any more)
 			if c != nil {
 				c.seen = true
 				fmt.Fprintf(r.w, "T %d F %d %s\n", in.ID, b2i(c.ok), errTok(c.err))
@@ -309,23 +344,40 @@ func (r *runner) doItem(it Item) {
 	case "run":
 		if !r.s.Release(it.Tid) {
 			in, _ := r.s.Get(it.Tid)
-			r.note(it.K, "run %d skipped: thread is %s", it.Tid, in.State)
+			r.note(r.idx, "run %d skipped: thread is %s", it.Tid, in.State)
 		}
 	case "wake", "fcancel":
 		// the goroutine made this move by itself
+	case "resume":
+		// a thread parked at a window yield point (exhibit runs) continues to its next yield point
+		in, ok := r.s.Get(it.Tid)
+		if !ok || in.State != vhook.Parked || !isWindow(in.Label) || !r.s.Release(it.Tid) {
+			r.note(r.idx, "resume %d skipped: thread is %s %s", it.Tid, in.State, in.Label)
+		}
+	case "gcstart":
+		// one GC pass in a goroutine of its own: it parks before its first shard.Lock() (yield points GcShard<n>)
+		id := GcTid0 + len(r.gcs)
+		r.gcs = append(r.gcs, id)
+		m, mi := r.m, r.minIdle
+		r.s.Go(id, func() { m.VerifLockGc(mi) })
+	case "gcrun":
+		if !r.gcAdvance() {
+			r.note(r.idx, "gcrun skipped: no GC pass is parked")
+		}
 	case "cancel":
 		if c := r.calls[it.Tid]; c != nil {
 			c.cancel(errOfTok(it.Err))
 		} else {
-			r.note(it.K, "cancel %d skipped: no such call", it.Tid)
+			r.note(r.idx, "cancel %d skipped: no such call", it.Tid)
 		}
 	case "gcpass":
+		// a whole pass, atomically (an unregistered goroutine passes through the GcShard yield points)
 		done := false
 		m, mi := r.m, r.minIdle
 		go func() { m.VerifLockGc(mi); done = true }()
 		r.wait("gcpass")
 		if !done {
-			r.note(it.K, "gcpass did not finish")
+			r.note(r.idx, "gcpass did not finish")
 		}
 	case "tick":
 		time.Sleep(time.Duration(it.Dt) * Unit)
@@ -334,7 +386,7 @@ func (r *runner) doItem(it Item) {
 			return
 		}
 		if r.realInFlight() {
-			r.note(it.K, "shutdown skipped: a call is in flight on the real side")
+			r.note(r.idx, "shutdown skipped: a call is in flight on the real side")
 			return
 		}
 		// the model's final GC pass is lockGc(0) exactly as the code has it: it collects what has been idle for MORE than 0 ns
@@ -349,20 +401,97 @@ func (r *runner) doItem(it Item) {
 	}
 }
 
+// gcAdvance lets the oldest parked GC pass run to its next yield point (or to its end).
+func (r *runner) gcAdvance() bool {
+	for _, id := range r.gcs {
+		if in, ok := r.s.Get(id); ok && in.State == vhook.Parked {
+			return r.s.Release(id)
+		}
+	}
+	return false
+}
+
+func (r *runner) gcParked() bool {
+	for _, id := range r.gcs {
+		if in, ok := r.s.Get(id); ok && in.State == vhook.Parked {
+			return true
+		}
+	}
+	return false
+}
+
+// handledAhead: the schedule itself deals with thread tid parked at a window yield point: only asynchronous items (and
+// resumes) stand between here and "resume tid".
+func handledAhead(items []Item, i int, tid int) bool {
+	for j := i + 1; j < len(items); j++ {
+		it := items[j]
+		if it.Kind == "resume" {
+			if it.Tid == tid {
+				return true
+			}
+			continue
+		}
+		if !it.async() {
+			return false
+		}
+	}
+	return false
+}
+
+// autoResume (exhibit runs): a thread parked at a window yield point that the schedule does not deal with continues at once
+// (the window stays closed, as in the comparison run).
+func (r *runner) autoResume(items []Item, i int) {
+	for round := 0; round < 16; round++ {
+		moved := false
+		for _, in := range r.s.Snapshot() {
+			if in.State == vhook.Parked && isWindow(in.Label) && !handledAhead(items, i, in.ID) {
+				if r.s.Release(in.ID) {
+					moved = true
+					r.wait("auto resume")
+				}
+			}
+		}
+		if !moved {
+			return
+		}
+	}
+}
+
+// flushPassed writes the window yield points passed during the last item (comparison run).
+func (r *runner) flushPassed(k int) {
+	r.pmu.Lock()
+	ps := r.passed
+	r.passed = nil
+	r.pmu.Unlock()
+	for _, p := range ps {
+		fmt.Fprintf(r.w, "Y %d %d %s\n", k, p.tid, p.label)
+	}
+}
+
 // RunSchedule executes one schedule inside the current synctest bubble.
 func RunSchedule(sc *Schedule, w *bufio.Writer, wd *vhook.Watchdog, reached map[string]int) {
 	r := &runner{w: w, wd: wd, s: vhook.New(), calls: map[int]*call{}, sid: sc.ID, minIdle: time.Duration(sc.MinIdle) * Unit}
 	// labels starting with "X" are sentinels (anchors.json): yield points that exist only because the code's shape deviates
-	// from the model's. SCHED_XPARK=0 makes them transparent (the run is compared with the model at the model's own
-	// granularity); otherwise they park like every other label (the window they open is exhibited to the oracles).
-	step := r.s.Step
-	if os.Getenv("SCHED_XPARK") == "0" {
-		step = func(label string) {
-			if strings.HasPrefix(label, "X") {
-				return
+	// from the model's; labels starting with "W" are window yield points (always placed: a call has just returned and only
+	// thread-local work follows until the next model step). SCHED_XPARK=0 (comparison run) makes both transparent: the run is
+	// compared with the model at the model's own granularity, and every W passage is written down ("Y" lines). Otherwise
+	// (exhibit run) X labels park like every other label, W labels park until the schedule's "resume" item (asynchronous items
+	// in between) or are resumed at once when the schedule does not deal with them.
+	r.exhibit = os.Getenv("SCHED_XPARK") != "0"
+	step := func(label string) {
+		if isWindow(label) && !r.exhibit {
+			r.s.Count(label)
+			if id, ok := r.s.Who(); ok && !r.epi {
+				r.pmu.Lock()
+				r.passed = append(r.passed, passage{id, label})
+				r.pmu.Unlock()
 			}
-			r.s.Step(label)
+			return
 		}
+		if isSentinel(label) && !r.exhibit {
+			return
+		}
+		r.s.Step(label)
 	}
 	lock.VerifStep = step
 	semaphore.VerifStep = step
@@ -370,28 +499,48 @@ func RunSchedule(sc *Schedule, w *bufio.Writer, wd *vhook.Watchdog, reached map[
 		lock.VerifStep = nil
 		semaphore.VerifStep = nil
 	}()
-	fmt.Fprintf(w, "S %s\nC %d\n", sc.ID, sc.MinIdle)
-	// ONE shard; the manager's own GC ticker never fires (passes are schedule items)
-	r.m, r.closer = lock.NewManager(1, 1000000*time.Hour, r.minIdle)
+	if sc.Shards < 1 {
+		sc.Shards = 1
+	}
+	fmt.Fprintf(w, "S %s\nC %d\nH %d\n", sc.ID, sc.MinIdle, sc.Shards)
+	// the manager's own GC ticker never fires (passes are schedule items)
+	r.m, r.closer = lock.NewManager(uint32(sc.Shards), 1000000*time.Hour, r.minIdle)
 	r.wait("new manager")
 
-	last := -1
+	// items are numbered as they are executed (the harness may add "gcrun" items of its own, see below)
+	k := 0
 	for i, it := range sc.Items {
-		r.idx = it.K
-		last = it.K
-		fmt.Fprintf(w, "I %d %s\n", it.K, it.Raw)
+		r.idx = k
+		fmt.Fprintf(w, "I %d %s\n", k, it.Raw)
 		w.Flush()
 		r.doItem(it)
 		r.wait("item " + it.Raw)
+		if r.exhibit {
+			r.autoResume(sc.Items, i)
+		} else {
+			r.flushPassed(k)
+		}
+		k++
 		if i+1 < len(sc.Items) && sc.Items[i+1].forced() {
 			continue
 		}
-		r.observe(it.K)
+		r.observe(k - 1)
 		if r.crashed {
 			break
 		}
 	}
-	r.idx = last + 1
+	// a GC pass that is still parked (the code's pass has more lock sections than the model's): further "gcrun" items until it ends
+	for n := 0; n < 256 && !r.crashed && r.gcParked(); n++ {
+		r.idx = k
+		fmt.Fprintf(w, "I %d gcrun\n", k)
+		r.note(k, "drain: a GC pass was still parked at the end of the schedule")
+		w.Flush()
+		r.gcAdvance()
+		r.wait("drain gcrun")
+		k++
+		r.observe(k - 1)
+	}
+	r.idx = k
 	if !r.crashed {
 		r.epilogue()
 	}
@@ -409,6 +558,12 @@ func (r *runner) ev() int { k := r.idx; r.idx++; return k }
 
 // late reports the calls that returned since the last report.
 func (r *runner) late() {
+	for _, id := range r.gcs {
+		if in, _ := r.s.Get(id); in.State == vhook.Panicked && !r.crashed {
+			r.crashed = true
+			fmt.Fprintf(r.w, "E %d panic %d %s\n", r.ev(), id, hx(in.Panic))
+		}
+	}
 	for _, tid := range r.order {
 		c := r.calls[tid]
 		in, _ := r.s.Get(tid)
@@ -449,6 +604,7 @@ type hold struct{ name, key string }
 func (r *runner) epilogue() {
 	fmt.Fprintf(r.w, "E %d begin\n", r.ev())
 	r.w.Flush()
+	r.epi = true
 	r.s.FreeRun()
 	r.wait("free run")
 	r.late()
@@ -473,8 +629,30 @@ func (r *runner) epilogue() {
 			r.ecall("unl", c.name, c.key, 1, "refused-key")
 		}
 	}
-	// (b) probe: TryLock until refused, then give the probe keys back
-	for _, l := range r.table() {
+	// (b) probe: TryLock until refused, then give the probe keys back. Every mapped object, and every name on which a call of
+	// the schedule was granted a hold that is still live (the object may have disappeared from the table under it).
+	probe := r.table()
+	for _, tid := range r.order {
+		c := r.calls[tid]
+		if c.op == "unl" || !c.done || !c.ok {
+			continue
+		}
+		gone := true
+		for _, l := range probe {
+			if l.Name == c.name {
+				gone = false
+			}
+		}
+		for _, t2 := range r.order {
+			if u := r.calls[t2]; u.op == "unl" && u.done && u.ok && u.name == c.name && u.key == c.key {
+				gone = false
+			}
+		}
+		if gone {
+			probe = append(probe, lock.VerifLock{Name: c.name, Size: c.size})
+		}
+	}
+	for _, l := range probe {
 		var got []string
 		for i := 0; i <= int(l.Size)+1; i++ {
 			key := fmt.Sprintf("probe-%d", r.nprobe)
